@@ -113,8 +113,9 @@ def run_stages(prop, cfg, tier, repo, seed, known):
     rep = {'violations': [], 'known_hits': [], 'tool_limits': [], 'obligations': [], 'assumptions': [], 'cmds': [], 'bounded': [], 'kani': []}
     if tier != 'thorough':
         return rep
+    run_kani(prop, repo, rep)
     groups = [g for g in load_groups() if prop in g.get('props', [])]
-    if not groups and not cfg.get('kani'):
+    if not groups:
         return rep
     sync_repo(repo)
     files = []
@@ -157,6 +158,73 @@ def run_stages(prop, cfg, tier, repo, seed, known):
                 else:
                     rep['violations'].append(rec)
     return rep
+
+
+KANI_WORK = os.path.join(CACHE, 'work-kani', 'repo')
+
+
+def load_kani_groups():
+    p = os.path.join(ROOT, 'kani', 'groups.json')
+    if not os.path.exists(p):
+        return []
+    with open(p) as f:
+        return json.load(f)
+
+
+def run_kani(prop, repo, rep):
+    """Kani harnesses: injected into a second scratch copy (cfg(kani) only), one `cargo kani` run per group."""
+    groups = [g for g in load_kani_groups() if prop in g.get('props', [])]
+    if not groups:
+        return
+    os.makedirs(os.path.dirname(KANI_WORK), exist_ok=True)
+    subprocess.run(['rsync', '-a', '--delete', '--exclude', 'target', '--exclude', '.git', repo.rstrip('/') + '/', KANI_WORK + '/'], check=True)
+    for g in groups:
+        for d in g['files']:
+            path = os.path.join(ROOT, 'kani', d)
+            h = parse_header(path)
+            target = os.path.join(KANI_WORK, h['append-to'][0])
+            if not os.path.exists(target):
+                rep['tool_limits'].append('kani target missing: ' + h['append-to'][0])
+                return
+            with open(target, 'a') as f:
+                f.write('\n\n// ===== appended by /verif (scratch copy only, cfg(kani)): %s =====\n' % d)
+                f.write(open(path).read())
+    env = dict(os.environ)
+    env['CARGO_NET_OFFLINE'] = 'true'
+    env['CARGO_TARGET_DIR'] = os.path.join(CACHE, 'target-kani')
+    env.pop('RUSTFLAGS', None)
+    for g in groups:
+        for hname, meta in g['harnesses'].items():
+            if prop not in meta.get('props', g['props']):
+                continue
+            t0 = time.time()
+            cmd = ['cargo', 'kani', '-p', g['crate'], '--harness', hname, '-Z', 'function-contracts', '-Z', 'stubbing', '--output-format', 'terse']
+            try:
+                p = subprocess.run(cmd, cwd=KANI_WORK, env=env, capture_output=True, text=True, timeout=int(meta.get('timeout', 900)))
+                out = p.stdout + '\n' + p.stderr
+            except subprocess.TimeoutExpired:
+                rep['tool_limits'].append('kani harness %s timed out' % hname)
+                continue
+            wall = round(time.time() - t0, 1)
+            ok = 'VERIFICATION:- SUCCESSFUL' in out
+            failed = 'VERIFICATION:- FAILED' in out
+            uncovered = re.findall(r'cover.*UNSATISFIABLE', out)
+            rep['cmds'].append(' '.join(cmd))
+            rep['kani'].append({'harness': hname, 'ok': ok, 'wall_s': wall, 'domain': meta.get('domain', '')})
+            ob = {'id': 'kani/%s/%s' % (g['name'], hname), 'unit': g['name'], 'function': meta.get('fn', hname), 'backend': 'kani 0.68 + cbmc', 'ms': wall * 1000,
+                  'kind': 'kani-harness (%s)' % meta.get('domain', 'full domain'), 'status': 'discharged' if ok and not uncovered else 'failed'}
+            if meta.get('bounded'):
+                ob['class'] = 'bounded'
+                ob['bound'] = meta['bounded']
+            rep['obligations'].append(ob)
+            if uncovered:
+                rep['tool_limits'].append('kani harness %s: unsatisfied cover (vacuity guard): %s' % (hname, uncovered[:2]))
+            elif failed:
+                checks = [l.strip() for l in out.split('\n') if 'FAILURE' in l or 'Failed Checks' in l][:6]
+                rep['violations'].append({'obligation': 'kani/%s/%s#assertion' % (g['name'], hname), 'at': meta.get('fn', hname), 'message': 'Kani harness failed: ' + ' | '.join(checks),
+                                          'repo_loc': meta.get('where'), 'clause': meta.get('contract'), 'rendered': out[-3000:], 'unit': g['name'], 'function': meta.get('fn', hname)})
+            elif not ok:
+                rep['tool_limits'].append('kani harness %s did not complete: %s' % (hname, out[-400:].replace('\n', ' | ')))
 
 
 def obligation_prop_ok(w, prop, meta):
